@@ -31,6 +31,7 @@ fn same_err(a: &TSneError, b: &TSneError) -> bool {
     match (a, b) {
         (TSneError::NegativePerplexity, TSneError::NegativePerplexity) => true,
         (TSneError::NegativeApproximationThreshold, TSneError::NegativeApproximationThreshold) => true,
+        (TSneError::PreliminaryIterationsTooLarge, TSneError::PreliminaryIterationsTooLarge) => true,
         _ => false,
     }
 }
@@ -60,24 +61,27 @@ fn c04_tsne_same_verdict_f64() {
     let p = mk::<f64>(es, th, px, it, pre);
     let before = p.clone();
     let signs_ok = px >= 0.0 && th >= 0.0;
+    let pre_ok = match pre { Some(x) => x <= it, None => true };   // "number of preliminary iterations larger than total iterations" is an error
     let r = p.check_ref();
-    assert!(r.is_ok() == signs_ok);                                // the two documented sign ranges
+    assert!(r.is_ok() == (signs_ok && pre_ok));                    // the documented ranges
     match &r {
         Ok(c) => assert!(**c == before.0 && c.embedding_size() == es && c.approx_threshold() == th && c.perplexity() == px
                          && c.max_iter() == it && *c.preliminary_iter() == pre),
         Err(TSneError::NegativePerplexity) => assert!(!(px >= 0.0)),
         Err(TSneError::NegativeApproximationThreshold) => assert!(!(th >= 0.0)),
+        Err(TSneError::PreliminaryIterationsTooLarge) => assert!(!pre_ok),
         Err(_) => assert!(false),
     }
     assert!(p == before);                                          // check_ref leaves self unchanged
     let byval = p.clone().check();
-    assert!(byval.is_ok() == signs_ok);                            // same verdict by value
+    assert!(byval.is_ok() == r.is_ok());                           // same verdict by value
     match (&byval, &r) {
         (Ok(c), Ok(_)) => assert!(*c == before.0),                 // payload is the inner value
         (Err(a), Err(b)) => assert!(same_err(a, b)),               // same error
         _ => assert!(false),
     }
-    kani::cover!(signs_ok);
+    kani::cover!(signs_ok && pre_ok);
+    kani::cover!(signs_ok && !pre_ok);
     kani::cover!(!signs_ok);
     kani::cover!(px == 0.0 && th == 0.0);
     kani::cover!(px < 0.0 && th < 0.0);
@@ -108,24 +112,27 @@ fn c04_tsne_same_verdict_f32() {
     let p = mk::<f32>(es, th, px, it, pre);
     let before = p.clone();
     let signs_ok = px >= 0.0 && th >= 0.0;
+    let pre_ok = match pre { Some(x) => x <= it, None => true };   // "number of preliminary iterations larger than total iterations" is an error
     let r = p.check_ref();
-    assert!(r.is_ok() == signs_ok);                                // the two documented sign ranges
+    assert!(r.is_ok() == (signs_ok && pre_ok));                    // the documented ranges
     match &r {
         Ok(c) => assert!(**c == before.0 && c.embedding_size() == es && c.approx_threshold() == th && c.perplexity() == px
                          && c.max_iter() == it && *c.preliminary_iter() == pre),
         Err(TSneError::NegativePerplexity) => assert!(!(px >= 0.0)),
         Err(TSneError::NegativeApproximationThreshold) => assert!(!(th >= 0.0)),
+        Err(TSneError::PreliminaryIterationsTooLarge) => assert!(!pre_ok),
         Err(_) => assert!(false),
     }
     assert!(p == before);                                          // check_ref leaves self unchanged
     let byval = p.clone().check();
-    assert!(byval.is_ok() == signs_ok);                            // same verdict by value
+    assert!(byval.is_ok() == r.is_ok());                           // same verdict by value
     match (&byval, &r) {
         (Ok(c), Ok(_)) => assert!(*c == before.0),                 // payload is the inner value
         (Err(a), Err(b)) => assert!(same_err(a, b)),               // same error
         _ => assert!(false),
     }
-    kani::cover!(signs_ok);
+    kani::cover!(signs_ok && pre_ok);
+    kani::cover!(signs_ok && !pre_ok);
     kani::cover!(!signs_ok);
     kani::cover!(px == 0.0 && th == 0.0);
     kani::cover!(px < 0.0 && th < 0.0);
